@@ -52,6 +52,9 @@ func (e *Engine) writeQueryL(decls, pc []string, goal string, inputs []InputTerm
 	b.WriteString(preamble)
 	if !qf {
 		b.WriteString("(set-option :smt.mbqi false)\n")
+		b.WriteString(idxAxiom)
+	} else {
+		b.WriteString(idxDef)
 	}
 	for _, d := range reg.order {
 		if qf && strings.Contains(d, "(forall ") {
@@ -184,10 +187,30 @@ func hasQuant(o *Obligation) bool {
 	return false
 }
 
+var stepTime [4]int64
+var stepCount [4]int64
+
 func (e *Engine) solveObligation(o *Obligation) {
 	if o.Status == "error" {
 		return
 	}
+	t0 := time.Now()
+	defer func() {
+		k := 3
+		switch {
+		case strings.Contains(o.Solver, "(qf"):
+			k = 0
+		case strings.Contains(o.Solver, "(light)"):
+			k = 1
+		case o.Status == "unsat":
+			k = 2
+		}
+		if k >= 2 && os.Getenv("GOVC_STEPS") != "" && time.Since(t0) > 500*time.Millisecond {
+			fmt.Printf("FULLSTEP %dms %s %s %s\n", int64(time.Since(t0)/time.Millisecond), o.Status, o.Solver, o.Name)
+		}
+		atomic.AddInt64(&stepTime[k], int64(time.Since(t0)/time.Millisecond))
+		atomic.AddInt64(&stepCount[k], 1)
+	}()
 	// step 1: quantifier-free weakening (goal kept as is): decides most safety obligations at once
 	var cand *solveResult
 	if !strings.Contains(o.Goal, "(forall ") && !strings.Contains(o.Goal, "(exists ") {
@@ -214,16 +237,18 @@ func (e *Engine) solveObligation(o *Obligation) {
 		os.Remove(qf)
 	}
 	if !o.ExpectSat {
-		// step 2: without the background axioms (typing of heaps, boxing): another sound weakening that keeps the
-		// contract-level quantified facts; decides most invariant-preservation goals quickly and robustly
-		lf := e.writeQueryL(o.Decls, o.PC, o.Goal, nil, false, true)
-		r := runSolver(solvers[0], lf, 3)
-		if r.status != "unsat" {
-			r2 := runSolver(solvers[1], lf, 3)
-			if r2.status == "unsat" {
-				r = r2
-			}
+		// step 2: the full query with a short budget (most discharge well under a second)
+		ff := e.writeQuery(o.Decls, o.PC, o.Goal, nil)
+		r := runSolver(solvers[0], ff, 2)
+		os.Remove(ff)
+		if r.status == "unsat" {
+			o.Status, o.Solver, o.Time = "unsat", r.solver, r.time
+			return
 		}
+		// step 3: without the background axioms (typing of heaps, boxing): a sound weakening that keeps the
+		// contract-level quantified facts; rescues goals on which E-matching wanders
+		lf := e.writeQueryL(o.Decls, o.PC, o.Goal, nil, false, true)
+		r = runSolver(solvers[0], lf, 3)
 		os.Remove(lf)
 		if r.status == "unsat" {
 			o.Status, o.Solver, o.Time = "unsat", r.solver+"(light)", r.time
